@@ -87,8 +87,10 @@ func eval(c Case, dir string) hx.Result {
 			rich := func(tag string) specs.ContainerEdits {
 				tm := 3
 				return specs.ContainerEdits{
-					Env:            []string{"E_" + tag + "=1", "SHARED=" + tag},
-					Mounts:         []*specs.Mount{{HostPath: "/h/" + tag, ContainerPath: "/c/" + tag, Options: []string{"ro", tag}}, {HostPath: "/h2/" + tag, ContainerPath: "/shared"}},
+					Env: []string{"E_" + tag + "=1", "SHARED=" + tag},
+					Mounts: []*specs.Mount{{HostPath: "/h/" + tag, ContainerPath: "/c/" + tag, Options: []string{"ro", tag}}, {HostPath: "/h2/" + tag, ContainerPath: "/shared"},
+						// spellings that are not in cleaned form (what an injection normalises must not be written back into the cache)
+						{HostPath: "/h3/" + tag, ContainerPath: "/c/" + tag + "/unclean/"}, {HostPath: "//h4/./" + tag, ContainerPath: "//dbl/./" + tag}},
 					Hooks:          []*specs.Hook{{HookName: "prestart", Path: "/hook/" + tag, Args: []string{"a", tag}, Env: []string{"H=" + tag}, Timeout: &tm}},
 					IntelRdt:       &specs.IntelRdt{ClosID: "clos-" + tag, L3CacheSchema: "L3:" + tag, EnableCMT: tag == "spec"},
 					AdditionalGIDs: []uint32{7, uint32(len(tag))},
